@@ -209,6 +209,7 @@ func (fr *Frame) envAt(st *State, old *Heap, what string) *Env {
 	for i, p := range fr.fn.Params {
 		if i < len(fr.params) {
 			e.vars[p.Name()] = fr.params[i]
+			e.vars[p.Name()+"0"] = fr.params[i]
 		}
 	}
 	for k, v := range fr.aliases {
